@@ -789,6 +789,26 @@ func (e *Env) call(x *spec.Call) TV {
 			t = fmt.Sprintf("(s.base %s)", a.T)
 		}
 		return TV{fmt.Sprintf("(> (oroot %s) %s)", t, g.top(e.old)), "Bool", nil}
+	case "recvN", "sendN", "recvAt", "sendAt":
+		// channel history of channel c (G-CHAN): recvN(c), sendN(c), recvAt(c, k), sendAt(c, k)
+		c := e.eval(x.Args[0])
+		ct, ok := types.Unalias(c.Go).Underlying().(*types.Chan)
+		if c.Go == nil || !ok {
+			e.fail("%s needs a channel", x.Fn)
+		}
+		rN, rS, sN, sS := g.chanComps(ct.Elem())
+		switch x.Fn {
+		case "recvN":
+			return TV{fmt.Sprintf("(select %s %s)", g.read(e.cur, rN), c.T), "Int", nil}
+		case "sendN":
+			return TV{fmt.Sprintf("(select %s %s)", g.read(e.cur, sN), c.T), "Int", nil}
+		case "recvAt":
+			k := e.eval(x.Args[1])
+			return TV{fmt.Sprintf("(select (select %s %s) %s)", g.read(e.cur, rS), c.T, k.T), g.u.SortOf(ct.Elem()), ct.Elem()}
+		default:
+			k := e.eval(x.Args[1])
+			return TV{fmt.Sprintf("(select (select %s %s) %s)", g.read(e.cur, sS), c.T, k.T), g.u.SortOf(ct.Elem()), ct.Elem()}
+		}
 	case "fld":
 		a, k := e.eval(x.Args[0]), e.eval(x.Args[1])
 		return TV{fmt.Sprintf("(fld %s %s)", a.T, k.T), "Int", nil}
@@ -938,7 +958,6 @@ func (e *Env) call(x *spec.Call) TV {
 		for i, p := range sf.Params {
 			n.vars[p.Name] = e.eval(x.Args[i])
 		}
-		n.callee = true
 		if sf.Pkg != "" {
 			n.pkg = sf.Pkg // package-level names in a macro body resolve where it was written
 		}
